@@ -341,7 +341,11 @@ def archive_dir(src: pathlib.Path, dest: pathlib.Path,
         dest: path pointing to a zip file
     """
     src = src.resolve()
-    for d, _, files in os.walk(src):
+
+    def onerror(error):     # os.walk ignores listing errors by default
+        raise error
+
+    for d, _, files in os.walk(src, onerror=onerror):
         for f in files:
             srcfile = pathlib.Path(os.path.join(d, f))
             rel = srcfile.relative_to(src)
